@@ -210,7 +210,8 @@ def execute(scenario, seed, overrides=None):
                 w.loop.call_at(t + 0.4, timer_probe, key, t, "A")
                 w.loop.call_at(t + 0.5 + 2e-6, timer_probe, key, t, "B")
                 return
-            d = st["deferred"].pop(key, None)
+            # a one-shot query from a legacy port is another querier on that host: it neither joins nor ends the train
+            d = None if legacy else st["deferred"].pop(key, None)
             packets = []
             if d is not None:
                 if t <= d["last"] + 0.4 - 1e-9 and len(d["starts"]) == 1:
